@@ -145,6 +145,10 @@ func (el *eventloop) read(c *conn) error {
 }
 
 func (el *eventloop) cread(c *conn) error {
+	// QUIT has been answered (or is waiting for earlier replies): nothing more is read
+	if c.closing {
+		return nil
+	}
 	for {
 		r, err := c.cread()
 		if err == codec.ErrInvalidResp {
@@ -158,17 +162,30 @@ func (el *eventloop) cread(c *conn) error {
 
 		out, action := el.eventHandler.OnCReact(r, c)
 		if out != nil {
-			// Encode data and try to write it back to the peer, this attempt is based on a fact:
-			// the peer socket waits for the response data after sending request data to the server,
-			// which makes the peer socket writable.
-			MsgPool.Put(r)
-			if _, err = c.write(out); err != nil {
-				return err
+			if c.inMsgQueue.Empty() {
+				// Encode data and try to write it back to the peer, this attempt is based on a fact:
+				// the peer socket waits for the response data after sending request data to the server,
+				// which makes the peer socket writable.
+				MsgPool.Put(r)
+				if _, err = c.write(out); err != nil {
+					return err
+				}
+			} else {
+				// earlier requests are still waiting for redis: a locally produced reply keeps its
+				// place in the pipeline and is delivered by the in-order flush
+				r.RspBody = append(r.RspBody[:0], out...)
+				r.Done = true
+				c.EnqueueInMsg(r)
 			}
 		}
 		switch action {
 		case None:
 		case Close:
+			if !c.inMsgQueue.Empty() {
+				// close once the replies queued before QUIT (and its own) have been delivered
+				c.closing = true
+				return nil
+			}
 			return el.closeConn(c, nil, ProxyEof)
 		case Shutdown:
 			return gerrors.ErrEngineShutdown
@@ -308,6 +325,10 @@ func (el *eventloop) flushClient(c *conn) {
 			break
 		}
 		MsgPool.Put(msg)
+	}
+
+	if c.closing && c.inMsgQueue.Empty() {
+		_ = el.closeConn(c, nil, ProxyEof)
 	}
 }
 
